@@ -742,6 +742,7 @@ func bytesIndexFrame(stream []byte) int {
 type statusRec struct {
 	side string
 	r    *Recorder
+	slow time.Duration // a status consumer that takes this long for every progress report (a slow user interface)
 }
 
 func (s statusRec) UpdateStatus(st fbb.Status) {
@@ -758,6 +759,9 @@ func (s statusRec) UpdateStatus(st fbb.Status) {
 	}
 	s.r.Add(rec.Event{"op": "Status", "side": s.side, "dir": dir, "mid": mid, "transferred": st.BytesTransferred, "total": st.BytesTotal,
 		"done": st.Done, "pcsize": csize})
+	if s.slow > 0 && !st.Done {
+		time.Sleep(s.slow)
+	}
 }
 
 // txEnd wraps a link end as a transport with a transmit buffer and Flush, like a modem: everything written (payload
@@ -900,7 +904,11 @@ func MainC17(args []string) int {
 				c := cfgs[i]
 				r := &Recorder{}
 				st := Setup(c.sc, r)
-				upd := map[string]fbb.StatusUpdater{"A": statusRec{"A", r}, "B": statusRec{"B", r}}
+				var slow time.Duration
+				if i%8 == 5 || i%8 == 2 {
+					slow = 400 * time.Millisecond // longer than the 250 ms reporting period
+				}
+				upd := map[string]fbb.StatusUpdater{"A": statusRec{"A", r, slow}, "B": statusRec{"B", r, slow}}
 				t0 := time.Now()
 				res := RunSessionOpts(c.sc, st, r, func(l *Link) { l.WriteDelay = c.delay }, upd, c.rate)
 				timedOut[i] = res.TimedOut
